@@ -117,9 +117,34 @@ def tableOutcomesOp : Op
                .flt r.score, .int r.run]))]
   | _ => none
 
+def parseStep (v : Val) : Option DStep :=
+  match v with
+  | .list [.bool dim, .str "sel", ls] => do some (dim, .selLabels (← ls.nats?))
+  | .list [.bool dim, .str "from", k] => do some (dim, .fromLabel (← k.nat?))
+  | .list [.bool dim, .str "thin", a, b] => do some (dim, .thin (← a.nat?) (← b.nat?))
+  | .list [.bool dim, .str "shift", k] => do some (dim, .shift (← k.nat?))
+  | _ => none
+
+/-- `C18.derived steps nChains nDraws`: the dataset `_format_chains` returns for a raw array with
+    `nChains` chains and `nDraws` draws, after the steps (`[onChain, op, args..]`) →
+    labels and raw positions of the chain and the draw axis of the derived dataset, the same for the
+    result of `compute_pointwise_loglikelihood`, and the chain-major rows a posterior predictive model draws from -/
+def derivedOp : Op
+  | [stepsV, .int nc, .int nd] => do
+    let steps ← (← stepsV.list?).mapM parseStep
+    match derive steps (Axis.ofRange nc.toNat, Axis.ofRange nd.toNat) with
+    | .error e => some [errVal (errName e)]
+    | .ok g =>
+      let rc := resultAxis false g.1
+      let rd := resultAxis false g.2
+      some [.str "ok", ofNats g.1.labels, ofNats g.1.sources, ofNats g.2.labels, ofNats g.2.sources,
+            ofNats rc.labels, ofNats rc.sources, ofNats rd.labels, ofNats rd.sources,
+            .list ((matrixRows g).map (fun e => ofNats [e.1, e.2]))]
+  | _ => none
+
 def ops : List (String × Op) :=
   [("C18.format_chains", formatOp), ("C18.roundtrip", roundtrip), ("C18.init_row", initOp), ("C18.init_row_legacy", initLegacyOp),
    ("C18.init_row_filter", initFilterOp), ("C18.table", tableOp),
-   ("C18.table_outcomes", tableOutcomesOp)]
+   ("C18.table_outcomes", tableOutcomesOp), ("C18.derived", derivedOp)]
 
 end ChiDriver.C18
